@@ -106,6 +106,97 @@ func VerifC11FormParse() {
 	}
 }
 
+// formTokens: the separators, their escapes in both hex cases, a stray '%', space, a two-byte code point
+// and an invalid byte.
+var formTokens = []string{"a", "b", "&", "=", "+", " ", "%", "%26", "%3D", "%3d", "%2B", "%2b", "%25", "%20", "%C3%A9", "é", "\xff", "%FF"}
+
+// VerifC11FormParseTokens: queries made of 1..N tokens from formTokens (all combinations): where a
+// separator and an escaped separator meet.
+func VerifC11FormParseTokens() {
+	n := 1 + vnd.Pick(vnd.Param("C11.NTokens", 3, 4))
+	w := ""
+	for i := 0; i < n; i++ {
+		w += formTokens[vnd.Pick(len(formTokens))]
+	}
+	u, err := Parse("http://h/?" + w)
+	if err != nil {
+		vnd.Fail("a query made of form tokens is rejected")
+		return
+	}
+	q := u.Query()
+	got := implPairs(u.SearchParams())
+	want := model.FormParse(q)
+	vnd.Observe("query", q)
+	vnd.Cover("form-tokens", true)
+	if !samePairs(got, want) {
+		vnd.Known("form-parse-plus", classFParse(q))
+		vnd.Fail("the parameter list is not the application/x-www-form-urlencoded parse of the query")
+	}
+}
+
+// VerifC11ListSeq: sequences of three list operations (append, delete, set, sort, sort by name+value, a
+// read) on a list parsed from a query, names and values over {a, b, empty}: state kept by one
+// operation and mis-read by a later one.
+func VerifC11ListSeq() {
+	starts := []string{"", "b=1&a=2", "a=1&b=2&a=3", "b=&a&b=b"}
+	u, _ := Parse("http://h/?" + starts[vnd.Pick(len(starts))])
+	sp := u.SearchParams()
+	ml := model.FormParse(u.Query())
+	depth := vnd.Param("C11.SeqDepth", 3, 4)
+	for i := 0; i < depth; i++ {
+		op := vnd.Pick(6)
+		switch op {
+		case 0:
+			nm, vl := vnd.StrOver(vnd.Len(1), "ab"), vnd.StrOver(vnd.Len(1), "ab")
+			sp.Append(nm, vl)
+			ml = model.ListAppend(ml, nm, vl)
+		case 1:
+			nm := vnd.StrOver(vnd.Len(1), "ab")
+			sp.Delete(nm)
+			ml = model.ListDelete(ml, nm)
+		case 2:
+			nm, vl := vnd.StrOver(vnd.Len(1), "abc"), vnd.StrOver(vnd.Len(1), "ab")
+			sp.Set(nm, vl)
+			ml = model.ListSet(ml, nm, vl)
+		case 3:
+			sp.Sort()
+			ml = model.ListSortStable(ml)
+		case 4:
+			// the library's own order (name+value); checked against its documented meaning only when no
+			// two pairs tie, so that the result is determined
+			sp.SortAbsolute()
+			ml = listSortAbsoluteStable(ml)
+		case 5:
+			_ = sp.Has("a")
+			_ = sp.GetAll("b")
+			_ = sp.String()
+		}
+		vnd.Cover("list-seq", true)
+		if !samePairs(implPairs(sp), ml) {
+			vnd.Fail("after a sequence of list operations the list differs from the standard's list semantics")
+		}
+		if op < 5 && u.Query() != sp.String() {
+			vnd.Fail("after a mutating list operation the URL's query is not the serialized list")
+		}
+	}
+}
+
+// listSortAbsoluteStable: stable insertion sort by name+value (byte-wise, as documented for SortAbsolute).
+func listSortAbsoluteStable(l []model.Pair) []model.Pair {
+	out := make([]model.Pair, len(l))
+	copy(out, l)
+	for i := 1; i < len(out); i++ {
+		cur := out[i]
+		j := i
+		for j > 0 && cur.Name+cur.Value < out[j-1].Name+out[j-1].Value {
+			out[j] = out[j-1]
+			j--
+		}
+		out[j] = cur
+	}
+	return out
+}
+
 const listSigma = "ab&=+% 2B"
 
 func symPair(k int) (string, string) {
@@ -289,6 +380,8 @@ func VerifC11FormRoundTrip() {
 }
 
 func init() {
+	verifHarnesses["VerifC11FormParseTokens"] = VerifC11FormParseTokens
+	verifHarnesses["VerifC11ListSeq"] = VerifC11ListSeq
 	verifHarnesses["VerifC11SortRunes"] = VerifC11SortRunes
 	verifHarnesses["VerifC11FormParse"] = VerifC11FormParse
 	verifHarnesses["VerifC11ListOps"] = VerifC11ListOps
